@@ -117,20 +117,20 @@ class Check(PropCheck):
                 mops += ['sel %d' % (q + 1), gen.parse_op(gen.to_newick(t2)), 'partitions', 'sel 0', 'cmp_topo %d' % (q + 1)]
             info['others'] = [f for f, _ in others]
         elif kind == 'collapse':
-            thr = rng.choice([0.0, 0.3, 1.0, 2.5, 100.0])
+            lens = [x.length for x in t.nodes() if x.length is not None]
+            # boundary values: a threshold exactly equal to an existing branch length (strictly-shorter test)
+            thr = rng.choice(lens) if (lens and rng.random() < 0.6) else rng.choice([0.0, 0.3, 1.0, 2.5, 100.0])
             ex = rng.random() < 0.5
             args = ['collapse', tf, repr(thr)] + (['-e'] if ex else [])
             info['thr'] = thr; info['ex'] = ex
-            mops = []
+            mops += ['cli_collapse %s %d' % (vf.enc_len(thr), 1 if ex else 0), 'to_newick']
         elif kind == 'remove':
             leaves = t.leaves()
             k = rng.randint(1, max(1, len(leaves) - 2))
             tips = rng.sample(leaves, k)
             ids = preorder_ids(t)
             args = ['remove', tf] + [x.name for x in tips]
-            for x in tips:
-                mops.append('prune %d' % ids[id(x)])
-            mops += ['compress', 'to_newick']
+            mops += ['cli_remove ' + ' '.join(vf.enc_str(x.name) for x in tips), 'to_newick']
             info['tips'] = [x.name for x in tips]
         elif kind == 'rescale':
             f = rng.choice([2.0, 0.5, 0.25, 4.0]) if job['mode'] == 'exact' else rng.choice([2.0, 10.0, 3.3, 0.1])
@@ -348,11 +348,11 @@ class Check(PropCheck):
             from props.c08 import parse_dm, tril
             taxa, cells = parse_dm(l)
             return {frozenset([taxa[x], taxa[y]]): vf.decode_num(cells[tril(x, y)]) for x in range(len(taxa)) for y in range(x)}
-        if kind in ('remove', 'rescale'):
-            # the library result of the same composition must equal the printed tree
+        if kind in ('remove', 'rescale', 'collapse'):
+            # the result of the same composition through the library (and the Cli.v model, compared separately) must equal the printed tree
             if before is None or after is None or canon(before, root_of(before)) != canon(after, root_of(after)):
                 if tol is None:
-                    return '%s: printed tree differs from prune/compress (resp. rescale) applied through the library' % kind
+                    return '%s: printed tree differs from the same composition applied through the library' % kind
             if kind == 'remove':
                 names = [vf.dec_str(n['name']) for n in after if n is not None and not n['children'] and n['name'] != '-']
                 if any(x in names for x in info['tips']):
@@ -369,7 +369,8 @@ class Check(PropCheck):
                     for k2 in B:
                         if k2 <= keep and k2 in A and not vf.num_eq(A[k2], B[k2], 1e-9, Fraction(1)):
                             return 'remove: the distance between remaining tips %s changed' % sorted(k2)
-            return None
+            if kind != 'collapse':
+                return None
         if kind == 'resolve':
             if il[i1 + 4][0] != 'ok' or il[i1 + 4][1] != '1':
                 return 'resolve: the printed tree is not binary'
